@@ -7,6 +7,7 @@ import LitexProofs.Packet.RoundTrip
 import LitexProofs.Packet.Bytes
 import LitexProofs.Packet.UnalignedStep
 import LitexProofs.Packet.UnalignedRoundTrip
+import LitexProofs.Packet.Ctor
 /-
   C16 — Packet framing: headers round-trip and packets are never interleaved or torn.
 
@@ -281,6 +282,84 @@ example :
     dispLog 2 false (dispatcher 2 false).init
       [⟨b 1 false, 1, [true, true]⟩, ⟨b 2 true, 0, [false, true]⟩, ⟨b 3 true, 5, [false, false]⟩]
       = [(some 1, 1, b 1 false), (some 1, 0, b 2 true), (none, 5, b 3 true)] := by decide
+
+/-! ### Every port count (what the constructors build: `arbiterCtor n`, `dispatcherCtor m oneHot`)
+
+  `Arbiter` / `Dispatcher` build the round-robin / selector logic only for ≥ 2 ports (Dispatcher: or `one_hot`);
+  with one port they are a plain `Endpoint.connect`, with none nothing is connected.  The logs below are read
+  off the ports of whichever machine is built (`arbLogM`: slave beat tagged with the `grant` output;
+  `dispLogM`: the slave whose port shows `valid`), so one statement covers all variants. -/
+
+/-- **arbiter_atomic, all port counts** (`n = 0, 1, 2, …`): the beats handed to the slave never interleave
+    packets of different masters. -/
+theorem arbiter_atomic_all_ports (n : Nat) (ins : List ArbIn) :
+    atomicFrom none (arbLogM (arbiterCtor n) (arbiterCtor n).init ins) :=
+  arbiterCtor_atomic n ins
+
+/-- **arbiter_lossless, all port counts**: what master `k` got accepted is the slave's stream restricted to the
+    beats granted to `k`. -/
+theorem arbiter_lossless_all_ports (n k : Nat) (hk : k < n) (ins : List ArbIn) :
+    arbAcceptedM (arbiterCtor n) k (arbiterCtor n).init ins =
+      ((arbLogM (arbiterCtor n) (arbiterCtor n).init ins).filter (fun x => x.1 == k)).map (fun x => x.2) :=
+  arbiterCtor_lossless n k hk ins
+
+/-- For ≥ 2 masters the port-level log is the log of `arbiter_atomic` (the `grant` output is the grant register). -/
+theorem arbiter_log_ports (n : Nat) (ins : List ArbIn) :
+    arbLogM (arbiterCtor (n + 2)) (arbiterCtor (n + 2)).init ins = arbLog (n + 2) (arbiter (n + 2)).init ins :=
+  arbLogM_arbiter (n + 2) ins _
+
+/-- One master: the slave port is the master port, `grant` is constant 0. -/
+theorem arbiter_single_master_wire (s : ArbState) (i : ArbIn) :
+    ((arbiterCtor 1).out s i).slave = i.masters.getD 0 Beat.idle ∧
+    ((arbiterCtor 1).out s i).readys = [i.ready] ∧ ((arbiterCtor 1).out s i).grant = 0 :=
+  arbiter_one_is_wire s i
+
+/-- Non-vacuity: a single master's two-beat packet with a stalled cycle arrives complete, tagged 0. -/
+example :
+    let b (v : Bool) (d : Nat) (l : Bool) : Beat := ⟨v, d, l⟩
+    arbLogM (arbiterCtor 1) (arbiterCtor 1).init
+      [⟨[b true 1 false], true⟩, ⟨[b true 2 true], false⟩, ⟨[b true 2 true], true⟩, ⟨[b false 0 false], true⟩]
+      = [(0, b true 1 false), (0, b true 2 true)] := by decide
+
+/-- **dispatcher_atomic, all port counts, binary and one-hot selector**: the destination of a packet is the slave
+    `ctorTarget m oneHot sel` addressed in the cycle of its first transferred beat (selector logic: the slave whose
+    key equals `sel`, nobody = drained; single slave without `one_hot`: that slave whatever `sel` says) and every
+    further beat up to `last` goes to the same destination.  The destination is read off the slave ports
+    (`dispDest`: the slave that is shown `valid`). -/
+theorem dispatcher_atomic_all_ports (m : Nat) (oneHot : Bool) (ins : List DispIn) :
+    routedFromG (ctorTarget m oneHot) none
+      (dispLogM (dispatcherCtor m oneHot) (dispatcherCtor m oneHot).init ins) :=
+  dispatcherCtor_atomic m oneHot ins
+
+/-- For the selector logic the port-level log is the log of `dispatcher_atomic`: the slave that sees `valid` is
+    the one whose key equals the effective selector. -/
+theorem dispatcher_log_ports (m : Nat) (oneHot : Bool) (ins : List DispIn) :
+    dispLogM (dispatcher m oneHot) (dispatcher m oneHot).init ins =
+      dispLog m oneHot (dispatcher m oneHot).init ins :=
+  dispLogM_dispatcher m oneHot ins _
+
+/-- `Dispatcher(master, [])`: `master.ready` is never raised, nothing is ever transferred (the code leaves the
+    master undriven — a packet offered to it waits forever; not a tearing, but worth knowing). -/
+theorem dispatcher_no_slave_dead (oneHot : Bool) (ins : List DispIn) (s : DispState) (i : DispIn) :
+    ((dispatcherCtor 0 oneHot).out s i).ready = false ∧
+    dispLogM (dispatcherCtor 0 oneHot) (dispatcherCtor 0 oneHot).init ins = [] :=
+  dispatcher_zero_dead oneHot ins s i
+
+/-- One slave without `one_hot`: the slave port is the master port. -/
+theorem dispatcher_single_slave_wire (s : DispState) (i : DispIn) :
+    ((dispatcherCtor 1 false).out s i).slaves = [i.master] ∧
+    ((dispatcherCtor 1 false).out s i).ready = i.readys.getD 0 false :=
+  dispatcher_one_is_wire s i
+
+/-- Non-vacuity: the single slave gets both beats although `sel` says 1 and then 0; with `one_hot` and one slave the
+    selector logic is built: `sel = 1` addresses slave 0, `sel = 0` nobody (the packet is drained). -/
+example :
+    let b (d : Nat) (l : Bool) : Beat := ⟨true, d, l⟩
+    dispLogM (dispatcherCtor 1 false) (dispatcherCtor 1 false).init
+      [⟨b 1 false, 1, [true]⟩, ⟨b 2 true, 0, [true]⟩] = [(some 0, 1, b 1 false), (some 0, 0, b 2 true)] ∧
+    dispLogM (dispatcherCtor 1 true) (dispatcherCtor 1 true).init
+      [⟨b 1 false, 1, [true]⟩, ⟨b 2 true, 0, [true]⟩, ⟨b 3 true, 0, [false]⟩]
+      = [(some 0, 1, b 1 false), (some 0, 0, b 2 true), (none, 0, b 3 true)] := by decide
 
 /-! ## 4. Packetizer / Depacketizer
 
